@@ -23,6 +23,9 @@ type vfC15Case struct {
 	Cuts    []int  `json:"cuts"`    // explicit cut positions of the stream on the consumer side (used when WriteSz is empty)
 	Shrink  int    `json:"shrink"`  // >=0: index (among regular files with size>0) of a file truncated between scan and read
 	ShrinkTo int64 `json:"shrink_to"`
+	// ShrinkMid > 0: the truncation happens while the stream is being produced, once (ShrinkMid-1) percent of that file's payload
+	// have been delivered - the file is open and partly read by then (a slow peer keeps the producer waiting in the middle of an entry)
+	ShrinkMid int `json:"shrink_mid,omitempty"`
 	Grow    int    `json:"grow"`    // >=0: index of a file extended between scan and read
 }
 
@@ -31,6 +34,7 @@ type vfC15Res struct {
 	headerCut   bool
 	boundaryCut bool
 	entries     int
+	shrunkOpen  bool
 }
 
 func vfArchiveProduce(cs *vfC15Case, src string) (stream []byte, reader fileReader, srcFile *sourceFile, msg string) {
@@ -87,6 +91,8 @@ func vfC15Run(cs vfC15Case, res *vfC15Res) string {
 		}
 	}
 	shrunk := false
+	shrinkAt, shrinkStart, shrinkEnd := -1, -1, -1 // stream offsets: do the truncation once this much has been produced / end of that file's payload
+	var doShrink func() string
 	if cs.Shrink >= 0 && len(regular) > 0 {
 		p := regular[cs.Shrink%len(regular)]
 		st, _ := os.Stat(p)
@@ -94,10 +100,32 @@ func vfC15Run(cs vfC15Case, res *vfC15Res) string {
 		if to >= st.Size() {
 			to = st.Size() - 1
 		}
-		if err := os.Truncate(p, to); err != nil {
-			return "truncate: " + err.Error()
+		doShrink = func() string {
+			if err := os.Truncate(p, to); err != nil {
+				return "truncate: " + err.Error()
+			}
+			return ""
 		}
-		shrunk = true
+		if cs.ShrinkMid > 0 {
+			off := 0
+			for _, sf := range srcFile.SubFiles {
+				off += len(sf.Header) + 1
+				if !sf.IsDir {
+					if sf.AbsPath == p {
+						shrinkAt = off + int(int64(cs.ShrinkMid-1)*sf.Size/100)
+						shrinkStart, shrinkEnd = off, off+int(sf.Size)
+						break
+					}
+					off += int(sf.Size)
+				}
+			}
+		}
+		if shrinkAt < 0 {
+			if m := doShrink(); m != "" {
+				return m
+			}
+			shrunk = true
+		}
 	}
 	if cs.Grow >= 0 && len(regular) > 0 {
 		p := regular[cs.Grow%len(regular)]
@@ -118,6 +146,18 @@ func vfC15Run(cs vfC15Case, res *vfC15Res) string {
 		sz := 32 * 1024
 		if len(cs.ReadSz) > 0 {
 			sz = cs.ReadSz[k%len(cs.ReadSz)]
+		}
+		if shrinkAt >= 0 && len(stream) >= shrinkEnd {
+			shrinkAt = -1 // the read sizes carried the producer past the whole file in one go: nothing left to shrink under it
+		}
+		if shrinkAt >= 0 && len(stream) >= shrinkAt {
+			if m := doShrink(); m != "" {
+				return m
+			}
+			// part of that file is still to be delivered: an error is due
+			shrunk = true
+			res.shrunkOpen = shrunk && len(stream) > shrinkStart // part of the file had been delivered already
+			shrinkAt = -1
 		}
 		buf := make([]byte, sz)
 		n, err := reader.Read(buf)
@@ -334,6 +374,9 @@ func vfGenC15(rt *rapid.T) vfC15Case {
 	case 0:
 		cs.Shrink = rapid.IntRange(0, 50).Draw(rt, "shrinkidx")
 		cs.ShrinkTo = rapid.Int64Range(0, 2000).Draw(rt, "shrinkto")
+		if rapid.Bool().Draw(rt, "shrinkmid") {
+			cs.ShrinkMid = rapid.IntRange(1, 101).Draw(rt, "shrinkmidpct")
+		}
 	case 1:
 		cs.Grow = rapid.IntRange(0, 50).Draw(rt, "growidx")
 	}
@@ -363,6 +406,9 @@ func TestVF_C15(t *testing.T) {
 		}
 		if cs.Shrink >= 0 {
 			labels = append(labels, "source_shrunk")
+		}
+		if res.shrunkOpen {
+			labels = append(labels, "source_shrunk_while_its_entry_was_being_read")
 		}
 		if cs.Grow >= 0 {
 			labels = append(labels, "source_extended")
